@@ -263,6 +263,11 @@ func (propC20) Gen(seed uint64, tier string, idx int) *Plan {
 		for _, c := range chunks {
 			doc = append(doc, c.Data...)
 		}
+		if !stream && route != 2 && r.Chance(300) {
+			// buffered completions with tool calls (empty, nested and odd arguments included)
+			cc := c13Gen(r)
+			doc, ct = []byte(c13Buffered(cc)), "application/json"
+		}
 		if stream && r.Chance(400) {
 			// richer real-world stream shapes: tool calls (all numbered 0 as some backends do), usage chunks, big arguments
 			cc := c13Gen(r)
@@ -320,9 +325,28 @@ func (propC20) Gen(seed uint64, tier string, idx int) *Plan {
 			Body: BodySpec{Kind: "json", N: 80, Model: "only-b2"}, Deadline: 20 * time.Second, Expect: "probe"})
 		id++
 	}
+	b2late := false
+	if r.Chance(500) {
+		// the healthy endpoint answers its listing a little slower than the poisoned one fails, and in the
+		// middle of the run it starts to list one more model: a bad neighbour in the same discovery
+		// round must not keep that from reaching the catalogue
+		slow := int64(pickS(r, []time.Duration{20 * time.Millisecond, 150 * time.Millisecond, 600 * time.Millisecond}))
+		b2.Listing = []Phase{{From: Always, Mode: "stall", Arg: slow}}
+		stalls := false
+		for _, k := range kinds {
+			if k == "stall" {
+				stalls = true // a round waiting on a silent neighbour ends at its time-out; when the next one starts is not pinned
+			}
+		}
+		if rounds >= 2 && !stalls {
+			later := append(append([]string{}, b2.Models...), "late-b2")
+			b2.Listing = append(b2.Listing, Phase{From: 12 * time.Second, Mode: "stall", Arg: slow, Models: later})
+			b2late = true
+		}
+	}
 	p.Endpoints = []EndpointCfg{b1, b2}
 	p.Sub = fmt.Sprintf("%s/unified=%v/listing=[%s]", typ, p.Stack.Unified, strings.Join(kinds, ","))
-	p.Extra = map[string]any{"t0_ms": 1000, "all_unparseable": allUnparseable}
+	p.Extra = map[string]any{"t0_ms": 1000, "all_unparseable": allUnparseable, "b2_late": b2late}
 	p.Deadline = end + 40*time.Second
 	p.RunFor = end
 	p.Settle = 2 * time.Second
@@ -353,6 +377,18 @@ func (propC20) AtEnd(r *Run) {
 	}
 	sort.Strings(names)
 	r.Extra["b1_models"] = names
+	if len(r.Plan.Endpoints) < 2 {
+		// (other plan shapes of this property have a single endpoint)
+	} else if b2ms, err := reg.GetModelsForEndpoint(ctx, "http://"+r.Plan.Endpoints[1].Host); err == nil {
+		var n2 []string
+		for _, m := range b2ms {
+			if m != nil {
+				n2 = append(n2, m.Name)
+			}
+		}
+		sort.Strings(n2)
+		r.Extra["b2_models"] = n2
+	}
 	for n, k := range seen {
 		if n == "" {
 			r.AddViolation("C20/registry-holds-nameless-model", "endpoint %s lists a model with an empty name (%d entries: %v)", b1url, len(names), names)
@@ -442,6 +478,19 @@ func (propC20) Check(r *Run) []Violation {
 		}
 		if math.IsNaN(float64(m.TPS)) || math.IsInf(float64(m.TPS), 0) {
 			add("C20/metrics-not-finite", "extractor for %s returned tokens_per_second=%v from a %d B tail", m.Provider, m.TPS, m.ChunkLen)
+		}
+	}
+	// the healthy neighbour's listing, refreshed in the same rounds, reaches the catalogue all the same
+	if r.Plan.ExtraBool("b2_late") && r.EndReason == "done" {
+		got, _ := r.Extra["b2_models"].([]string)
+		has := false
+		for _, n := range got {
+			if n == "late-b2" {
+				has = true
+			}
+		}
+		if !has {
+			add("C20/healthy-endpoint-catalogue-stale", "endpoint b2 has listed late-b2 since t=12s and answered every listing request, yet the catalogue holds %v for it at the end (run of %s, discovery every 10s)", got, r.Plan.RunFor)
 		}
 	}
 	// failed updates leave the previous attribution intact
